@@ -63,7 +63,7 @@ class HeapMixin(object):
       return VCallable(term, label=kind.arg or 'fn', nullable=kind.nullable)
     if t == 'val':
       if kind.tags and assume_shape:
-        st.axiom(z3.Or(*[vv.recog(tag, term) for tag in kind.tags]))
+        st.axiom(z3.Or(*[self.recog(tag, term) for tag in kind.tags]))
       if kind.tags:
         st.tags.setdefault(term.get_id(), tuple(kind.tags))
       return VVal(term)
@@ -116,7 +116,7 @@ class HeapMixin(object):
     if hint.tag == 'val':
       if hint.tags:
         if assume_shape:
-          st.axiom(z3.Or(*[vv.recog(tag, term) for tag in hint.tags]))
+          st.axiom(z3.Or(*[self.recog(tag, term) for tag in hint.tags]))
         st.tags.setdefault(term.get_id(), tuple(hint.tags))
       return VVal(term)
     t = hint.tag
@@ -149,6 +149,8 @@ class HeapMixin(object):
         r = Val.r(term)
       if t in ('ref', 'exc'):
         return VRef(self.class_by_name(hint.arg) if hint.arg else None, r, nullable=hint.nullable)
+      if t in ('list', 'tuple') and assume_shape:
+        st.axiom(z3.Select(st.harr(('list', 'len'), I), r) >= 0)
       return VRef(t, r, nullable=hint.nullable, elem=hint.elem, keykind=hint.key)
     if t == 'fn':
       if hint.nullable:
@@ -191,12 +193,16 @@ class HeapMixin(object):
           raise Unsupported('python-side field %s on symbolic reference' % name)
         return st.pyheap.get((oid, name))
       is_ref = kind.tag in ('ref', 'exc', 'list', 'dict', 'set', 'tuple')
-      arr = st.harr((owner, name), kind.sort(), is_ref=is_ref)
+      arr = st.harr((owner, name), kind.sort(), is_ref=is_ref, owned=getattr(kind, 'owned', False))
       term = z3.Select(arr, obj.t)
       if is_ref and z3.is_const(arr) and arr.decl().name().startswith('H0_'):
         # ground instance of the pre-state freshness axiom (saves the solver an instantiation)
         st.axiom(z3.And(term >= 0, term < ALLOC_BASE_))
+      if is_ref and not kind.nullable:
+        st.axiom(term != 0)          # shape invariant: the field is declared non-optional
       v = self.wrap(st, term, kind)
+      if kind.tag in ('list', 'tuple'):
+        st.axiom(z3.Select(st.harr(('list', 'len'), I), term) >= 0)      # lengths are never negative
       return v
     if oid is not None:
       return st.pyheap.get((oid, name))
@@ -301,7 +307,7 @@ class HeapMixin(object):
     """A dict key as a value: the raw term (no projection) with its declared shape recorded as tag knowledge."""
     if keykind is not None and keykind.tag in ('str', 'int', 'bytes', 'bool', 'float'):
       st.tags.setdefault(term.get_id(), keykind.tag)
-      st.axiom(vv.recog(keykind.tag, term))
+      st.axiom(self.recog(keykind.tag, term))
       return VVal(term)
     return self.from_val(st, term, keykind)
 
@@ -338,7 +344,7 @@ class HeapMixin(object):
     shape = []
     kk = getattr(d, 'keykind', None)
     if kk is not None and kk.tag in vv.RECOG:
-      shape.append(z3.ForAll([k], z3.Implies(z3.Select(dom, k), vv.recog(kk.tag, k))))
+      shape.append(z3.ForAll([k], z3.Implies(z3.Select(dom, k), self.recog(kk.tag, k))))
     return z3.And(
         n >= 0, keys.t != 0, *(shape + [
         z3.ForAll([i], z3.Implies(z3.And(0 <= i, i < n), z3.And(z3.Select(dom, z3.Select(items, i)), pos(z3.Select(items, i)) == i))),
